@@ -34,9 +34,12 @@ def skeleton(stubs: Stubs) -> dict:
                 "res": [ty(r["type"]) for r in d.results], "supers": [ty(s) for s in d.supers],
                 "type": ty(d.type) if d.kind == "attr" else None, "todos": sorted(d.todos), "members": [decl(m, tps) for m in d.members]}
     out = {}
+    # an import names the package as the stubs show it; its Python module is recovered from the stub that declares that package
+    pkg2py = {f.package: (f.pymodule or f.package) for f in stubs.files.values()}
     for rel, f in stubs.files.items():
         key = f.pymodule or f.package
-        out[key] = json.dumps({"imports": sorted(map(list, f.imports)), "decls": [decl(d) for d in f.members]}, sort_keys=True)
+        imports = sorted([pkg2py.get(frm, frm), name, alias] for frm, name, alias in f.imports)
+        out[key] = json.dumps({"imports": imports, "decls": [decl(d) for d in f.members]}, sort_keys=True)
     return out
 
 
@@ -104,7 +107,9 @@ def main(v: Verdict) -> None:
     files["plots/fill.py"] = "def fill_b() -> int:\n    ...\n"
     files["a_first/__init__.py"] = f"from {PKG}.core._shared import ReOther\n"
     files["a_first/fill.py"] = "def fill_c() -> int:\n    ...\n"
-    pkg = write_pkg(files, PKG)
+    # a class of another library in a private module below a snake_case package: every path segment is converted on its own
+    files["mforeign.py"] = "from c9lib.linear_model._base import Regressor\n\n\ndef fits(r: Regressor) -> Regressor:\n    ...\n"
+    pkg = write_pkg(files, PKG, siblings={"c9lib": {"__init__.py": "", "linear_model/__init__.py": "", "linear_model/_base.py": "class Regressor:\n    pass\n"}})
     r_off, r_on = run_many([{"src": pkg, "opts": Opts(docstyle="NUMPYDOC", nc=False), "timeout": 600},
                             {"src": pkg, "opts": Opts(docstyle="NUMPYDOC", nc=True), "timeout": 600}])
     if r_off.exit != "ok" or r_on.exit != "ok":
@@ -177,6 +182,13 @@ def main(v: Verdict) -> None:
             on = [f for f in s_on.files.values() if (f.pymodule or f.package) == f"{PKG}.{seg}"]
             obs.append({"id": f"module:{seg}", "kind": "decl", "obs": {
                 "pos": "module", "py": f"{PKG}.{seg}", "missingOff": not off, "missingOn": not on,
+                "shownOff": off[0].package if off else "", "annotatedOff": bool(off and off[0].pymodule),
+                "shownOn": on[0].package if on else "", "annotatedOn": bool(on and on[0].pymodule), "annotationOn": on[0].pymodule if on else ""}})
+        for py in ("c9lib.linear_model._base",):      # the placeholder stub of the other library's module
+            off = [f for f in s_off.files.values() if (f.pymodule or f.package) == py]
+            on = [f for f in s_on.files.values() if (f.pymodule or f.package) == py]
+            obs.append({"id": f"module:{py}", "kind": "decl", "obs": {
+                "pos": "module", "py": py, "missingOff": not off, "missingOn": not on,
                 "shownOff": off[0].package if off else "", "annotatedOff": bool(off and off[0].pymodule),
                 "shownOn": on[0].package if on else "", "annotatedOn": bool(on and on[0].pymodule), "annotationOn": on[0].pymodule if on else ""}})
         # the stubs of re-exported declarations: found by their place in the output tree
